@@ -61,14 +61,14 @@ example : InBounds [2, 3, 4] [1, 2, 3] ∧ sub2ind [2, 3, 4] [1, 2, 3] = 23 := b
 /-! ### tt_dimscheck -/
 
 /-- `dims` given (any order, no multiplicand count): the answer is `dims` sorted. -/
-theorem C17_dimscheck_dims (N : Nat) (d : List Nat) :
+theorem C17_dimscheck_dims (N : Nat) (d : List Nat) (hd : d.Nodup) (hN : ∀ x ∈ d, x < N) :
     ∃ sd, dimscheck N none (some (d.map Int.ofNat)) none = .ok ⟨sd, none⟩ ∧
-      sd.Pairwise (· ≤ ·) ∧ sd.Perm d := dimscheck_dims N d
+      sd.Pairwise (· < ·) ∧ sd.Perm d := dimscheck_dims N d hd hN
 
 /-- `exclude_dims` given: the answer is the complement, increasing. -/
-theorem C17_dimscheck_exclude (N : Nat) (e : List Nat) (he : ∀ x ∈ e, x < N) :
+theorem C17_dimscheck_exclude (N : Nat) (e : List Nat) (he : ∀ x ∈ e, x < N) (hn : e.Nodup) :
     dimscheck N none none (some (e.map Int.ofNat)) =
-      .ok ⟨(List.range N).filter (fun k => !e.contains k), none⟩ := dimscheck_exclude N e he
+      .ok ⟨(List.range N).filter (fun k => !e.contains k), none⟩ := dimscheck_exclude N e he hn
 
 /-- neither given: all modes. -/
 theorem C17_dimscheck_all (N : Nat) : dimscheck N none none none = .ok ⟨List.range N, none⟩ :=
@@ -77,25 +77,31 @@ theorem C17_dimscheck_all (N : Nat) : dimscheck N none none none = .ok ⟨List.r
 /-- One multiplicand per listed mode (`M = |dims|`): `vidx` is a permutation of the
 multiplicand positions and multiplicand `vidx[k]` is the one listed for mode `sdims[k]`,
 i.e. `sdims[k] = dims[vidx[k]]`. -/
-theorem C17_dimscheck_vidx_P (N : Nat) (d : List Nat) (hP : d.length ≤ N) :
+theorem C17_dimscheck_vidx_P (N : Nat) (d : List Nat) (hd : d.Nodup) (hN : ∀ x ∈ d, x < N) :
     ∃ sd vi, dimscheck N (some d.length) (some (d.map Int.ofNat)) none = .ok ⟨sd, some vi⟩ ∧
       vi.Perm (List.range d.length) ∧ sd = vi.map (fun k => d.getD k 0) ∧
-      sd.Pairwise (· ≤ ·) := dimscheck_vidx_P N d hP
+      sd.Pairwise (· < ·) := dimscheck_vidx_P N d hd hN
 
 /-- One multiplicand per mode of the tensor (`M = N ≠ |dims|`): multiplicands are indexed
 by the selected modes themselves. -/
-theorem C17_dimscheck_vidx_N (N : Nat) (d : List Nat) (hne : d.length ≠ N) :
+theorem C17_dimscheck_vidx_N (N : Nat) (d : List Nat) (hne : d.length ≠ N) (hd : d.Nodup)
+    (hN : ∀ x ∈ d, x < N) :
     ∃ sd, dimscheck N (some N) (some (d.map Int.ofNat)) none = .ok ⟨sd, some sd⟩ ∧
-      sd.Pairwise (· ≤ ·) ∧ sd.Perm d := dimscheck_vidx_N N d hne
+      sd.Pairwise (· < ·) ∧ sd.Perm d := dimscheck_vidx_N N d hne hd hN
 
-/-- The requests `tt_dimscheck` itself refuses. -/
+/-- The requests `tt_dimscheck` itself refuses: both conventions at once; an excluded mode
+outside the tensor; a negative, too large or repeated listed mode; repeated excluded modes;
+more multiplicands than modes; a multiplicand count that is neither `N` nor `|dims|`. -/
 theorem C17_dimscheck_rejects (N : Nat) (M : Option Nat) (d e : List Int) :
     dimscheck N M (some d) (some e) = .error .reject ∧
     ((∃ x ∈ e, x < 0 ∨ (N : Int) ≤ x) → dimscheck N M none (some e) = .error .reject) ∧
     ((∃ x ∈ d, x < 0) → dimscheck N M (some d) none = .error .reject) ∧
-    (∀ m, N < m → (∀ x ∈ d, 0 ≤ x) → dimscheck N (some m) (some d) none = .error .reject) ∧
-    (∀ m, m ≠ N → m ≠ d.length → (∀ x ∈ d, 0 ≤ x) →
-        dimscheck N (some m) (some d) none = .error .reject) := dimscheck_rejects N M d e
+    ((∃ x ∈ d, (N : Int) ≤ x) → dimscheck N M (some d) none = .error .reject) ∧
+    (¬ d.Nodup → dimscheck N M (some d) none = .error .reject) ∧
+    (¬ e.Nodup → dimscheck N M none (some e) = .error .reject) ∧
+    (∀ m, N < m → dimscheck N (some m) (some d) none = .error .reject) ∧
+    (∀ m, m ≠ N → m ≠ d.length → dimscheck N (some m) (some d) none = .error .reject) :=
+  dimscheck_rejects N M d e
 
 example : dimscheck 4 (some 2) (some [3, 1]) none = .ok ⟨[1, 3], some [1, 0]⟩ :=
   dimscheck_example
